@@ -11,3 +11,14 @@ func (r *RateLimiter) VerifRefillIP(ip string) {
 	delete(r.ipBuckets, ip)
 	r.ipMu.Unlock()
 }
+
+// VerifSetBroken makes every later Encrypt/Decrypt of THIS manager fail (a master key of the wrong length makes
+// aes.NewCipher fail) or restores it: a fault in credential generation, injected into the instance that the
+// anonymous-credential service uses, not into the one the auth handler verifies with.
+func (m *SecretKeyManager) VerifSetBroken(broken bool, good []byte) {
+	if broken {
+		m.masterKey = []byte{1, 2, 3}
+	} else {
+		m.masterKey = append([]byte(nil), good...)
+	}
+}
